@@ -60,6 +60,9 @@ def flow_frames(rng, e, sp, dp, cookie, complete=True):
     isn = rng.getrandbits(32)
     fs = [e.tcp(sp, dp, isn, 0, SYN)]
     kinds = ["syn"]
+    if rng.random() < 0.25:
+        fs.append(fs[0])             # byte-identical retransmission of the SYN
+        kinds.append("syn")
     seq = (isn + 1) & 0xFFFFFFFF
     for s in segs:
         fs.append(e.tcp(sp, dp, seq, (cookie + 1) & 0xFFFFFFFF, PSH | ACK, s))
@@ -68,6 +71,9 @@ def flow_frames(rng, e, sp, dp, cookie, complete=True):
     if complete and rng.random() < 0.5:
         fs.append(e.tcp(sp, dp, seq, (cookie + 1) & 0xFFFFFFFF, FIN | ACK))
         kinds.append("fin")
+        if rng.random() < 0.3:
+            fs.append(fs[-1])        # ... and of the FIN|ACK
+            kinds.append("fin")
     return fs, kinds, name
 
 
@@ -142,7 +148,11 @@ def triple(ctx, cfg, forced=None):
     noise = []
     for _ in range(rng.randrange(0, 5)):
         fl = rng.choice([SYN, FIN | ACK, RST, ACK, SYN | PSH, RST | ACK, 0])
-        noise.append((e.tcp(sp, dp, rng.getrandbits(32), rng.getrandbits(32), fl), "own:%03x" % fl))
+        # ... with or without payload (a request fragment, say), acknowledging anything - F's cookie + 1 included: none of
+        # these is a data segment, so none may reach F's parser or its control block
+        pl = rng.choice([b"", b"", b"GET / HTTP/1.1\r\nHost: a\r\n", b"\r\n", bytes(rng.getrandbits(8) for _x in range(rng.randrange(1, 40)))])
+        ackn = rng.choice([rng.getrandbits(32), (ckF + 1) & 0xFFFFFFFF, 0])
+        noise.append((e.tcp(sp, dp, rng.getrandbits(32), ackn, fl, pl), "own:%03x%s" % (fl, "+data" if pl else "")))
     # ICMP errors that quote F's own segments (either direction), as a router or the peer's stack would send them
     for _ in range(rng.choice([0, 0, 1, 2])):
         fwd = rng.random() < 0.5
